@@ -316,6 +316,13 @@ class Symx:
                 return b
             if a.is_Boolean or b.is_Boolean:
                 return sp.Or(sp.And(c, self.as_bool(a)), sp.And(sp.Not(c), self.as_bool(b)))
+            if isinstance(c, (sp.Lt, sp.Le, sp.Gt, sp.Ge)) and not isinstance(a, (Arr, LambdaVal)) and not isinstance(b, (Arr, LambdaVal)):
+                # (x < y ? x : y) is min(x, y), written as a conditional
+                x_, y_ = c.args
+                if (x_ == a and y_ == b) or (x_ == b and y_ == a):
+                    picks_first = (x_ == a)
+                    less = isinstance(c, (sp.Lt, sp.Le))
+                    return sp.Min(a, b) if picks_first == less else sp.Max(a, b)
             return Piecewise((a, c), (b, True))
         if k == 'Index':
             return self.index(e, st)
@@ -476,6 +483,17 @@ class Symx:
                 return Integer(0)
             if short == 'exit':
                 return Integer(0)
+        if q in ('std::transform', 'std::copy', 'std::fill') and kind == 'func':
+            r = self.std_writer(short, args, st)
+            if r is not None:
+                return r
+        if not c.get('inrepo') and kind == 'func' and q.startswith('std::') and short not in self.STD_ITER_READERS:
+            # an unmodelled standard algorithm: whatever container it can write through an iterator argument is unknown afterwards
+            for a_ in args:
+                io = self.iter_container(a_, st)
+                if io is not None and io[0] is not None and not strip(io[1]).get('ty', '').startswith('const '):
+                    st.env[io[0]] = Arr(self.lv_name(io[1]) + '@%s%d' % (short, e.get('l', 0)))
+                    st.env[io[0]].opaque = False
         if short in ('min_element', 'max_element') and len(args) == 2:
             i0 = self.iterator(args[0], st)
             i1 = self.iterator(args[1], st)
@@ -485,7 +503,12 @@ class Symx:
             i0 = self.iterator(args[0], st)
             i1 = self.iterator(args[1], st)
             if i0 and i1 and i0[0] == i1[0]:
-                return Function('ACCUM', real=True)(Symbol('arr:' + i0[0]), i0[1], i1[1], self.sym(args[2], st))
+                # std::accumulate(first, last, init) = init + sum of the elements, the same term an explicit summation loop gives
+                jv = Symbol('j_', integer=True)
+                io = self.iter_container(args[0], st)
+                src = st.env.get(io[0]) if io is not None and io[0] is not None else None
+                el = src.read((jv,)) if isinstance(src, Arr) else Function(i0[0], real=True)(jv)
+                return self.sym(args[2], st) + sp.Sum(el, (jv, i0[1], i1[1] - 1))
         if kind == 'method':
             return self.method_call(e, st)
         if kind == 'op':
@@ -516,6 +539,88 @@ class Symx:
         a = [self.sym_or_name(x, st) for x in args]
         self.havoc_mutrefs(c, args, st)
         return Function(q or 'call', real=True)(*a)
+
+    STD_ITER_READERS = {'min_element', 'max_element', 'accumulate', 'is_sorted', 'upper_bound', 'lower_bound', 'find', 'find_if', 'distance',
+                        'any_of', 'all_of', 'none_of', 'count', 'count_if', 'equal', 'begin', 'end', 'inner_product', 'binary_search',
+                        'minmax_element', 'advance', 'next', 'prev', 'min', 'max', 'swap', 'move', 'forward', 'get', 'make_pair', 'abs', 'fabs',
+                        'isnan', 'isinf', 'pow', 'exit'}
+
+    def iter_container(self, e, st):
+        """(env key, container expression) of the container an iterator expression points into, else None."""
+        e = strip(e)
+        while e.get('k') in ('Construct', 'Cast') and (e.get('args') or e.get('e')):
+            e = strip(e['args'][0]) if e.get('k') == 'Construct' else strip(e['e'])
+        if e.get('k') == 'Call' and e.get('kind') == 'method' and (e.get('callee') or {}).get('name') in ('begin', 'end'):
+            ob = strip(e['obj'])
+            key = self.lv_key(ob) if ob.get('k') in ('Ref', 'Member') else None
+            return key, ob
+        if e.get('k') == 'Call' and e.get('kind') == 'op' and e.get('op') in ('+', '-') and len(e.get('args', [])) == 2:
+            return self.iter_container(e['args'][0], st)
+        return None
+
+    def std_writer(self, short, args, st):
+        """std::transform(first,last,out,f) / std::copy(first,last,out) / std::fill(first,last,v) on containers that are
+        plain lvalues: the destination gets a comprehension over the written index range.  None when not modelled."""
+        def unw(a):
+            a = strip(a)
+            while a.get('k') in ('Construct',) and len([x for x in a.get('args', []) if x.get('k') != 'DefaultArg']) == 1:
+                a = strip(a['args'][0])
+            return a
+        if short == 'fill':
+            if len(args) != 3:
+                return None
+            dst_a, dst_b = self.iterator(unw(args[0]), st), self.iterator(unw(args[1]), st)
+            io = self.iter_container(args[0], st)
+            if not dst_a or not dst_b or dst_a[0] != dst_b[0] or io is None or io[0] is None:
+                return None
+            val = self.sym(args[2], st)
+            lo, hi = dst_a[1], dst_b[1]
+            term = lambda kv: val
+        else:
+            need = 4 if short == 'transform' else 3
+            if len(args) != need:
+                return None
+            sa, sb, da = self.iterator(unw(args[0]), st), self.iterator(unw(args[1]), st), self.iterator(unw(args[2]), st)
+            io = self.iter_container(args[2], st)
+            so = self.iter_container(args[0], st)
+            if not sa or not sb or not da or sa[0] != sb[0] or io is None or io[0] is None or so is None:
+                return None
+            src = st.env.get(so[0]) if so[0] is not None else None
+            sname = sa[0]
+
+            def rd(ix):
+                if isinstance(src, Arr):
+                    return src.read((ix,))
+                return Function(sname, real=True)(ix)
+            lo, hi = da[1], da[1] + (sb[1] - sa[1])
+            if short == 'copy':
+                term = lambda kv: rd(kv - da[1] + sa[1])
+            else:
+                f = strip(args[3])
+                while f.get('k') in ('Construct', 'Cast', 'Copy') and (f.get('args') or f.get('e')):
+                    f = strip(f['args'][0]) if f.get('k') == 'Construct' else strip(f['e'])
+                lv = None
+                if f.get('k') == 'Lambda':
+                    lv = LambdaVal(f, st.env)
+                else:
+                    key = self.lv_key(f) if f.get('k') == 'Ref' else None
+                    if key is not None and isinstance(st.env.get(key), LambdaVal):
+                        lv = st.env[key]
+                if lv is None:
+                    return None
+                term = lambda kv: self.apply_lambda(lv, None, st, vals=[rd(kv - da[1] + sa[1])])
+        key, ob = io
+        arr = st.env.get(key)
+        if not isinstance(arr, Arr):
+            arr = Arr(self.lv_name(ob))
+            st.env[key] = arr
+        else:
+            arr = arr.copy()
+            st.env[key] = arr
+        kv = sp.Dummy('k0', integer=True)
+        arr.defs.append(((kv,), S.true, term(kv)))
+        arr.ranges[len(arr.defs) - 1] = sp.And(sp.Ge(kv, lo), sp.Lt(kv, hi))
+        return Integer(0)
 
     def iterator(self, e, st):
         """container iterator expression -> (container name, offset) for begin()+k / end()."""
@@ -580,6 +685,7 @@ class Symx:
                 return Symbol('len(%s)' % self.lv_name(obj), integer=True, nonnegative=True)
             if name == 'push_back' and len(args) == 1:
                 v = self.rvalue(args[0], st)
+                v = arr_as_tuple(v)
                 if isinstance(v, (Arr, LambdaVal)):
                     v = Symbol('obj:' + show(args[0]))
                 if not isinstance(arr, Arr):
@@ -824,6 +930,7 @@ class Symx:
                 st.env[key] = arr
             kvs = tuple(sp.Dummy('k%d' % i, integer=True) for i in range(len(idx)))
             guard = sp.And(*[sp.Eq(kv, ix) for kv, ix in zip(kvs, idx)])
+            v = arr_as_tuple(v)
             if isinstance(v, (Arr, LambdaVal)):
                 v = Symbol('obj')
             arr.defs.append((kvs, guard, v))
@@ -833,11 +940,15 @@ class Symx:
         raise Undecided('assignment target kind %s: %s' % (k, show(lhs)))
 
     # ------------------------------------------------------------------ inlining
-    def apply_lambda(self, lv, args, st):
+    def apply_lambda(self, lv, args, st, vals=None):
         fn = lv.node['fn']
         sub = State(dict(st.env), list(st.conds))
-        for p, a in zip(fn['params'], args):
-            sub.env[p['id']] = self.rvalue(a, st)
+        if vals is not None:
+            for p, v_ in zip(fn['params'], vals):
+                sub.env[p['id']] = v_
+        else:
+            for p, a in zip(fn['params'], args):
+                sub.env[p['id']] = self.rvalue(a, st)
         self.depth += 1
         try:
             outs = self.exec_body(fn['body'], sub)
@@ -1579,6 +1690,43 @@ class Symx:
         for lhs, rhs in rest:
             g = sp.And(g, sp.Eq(lhs, rhs.subs(isub)))
         return g, isub
+
+
+def arr_as_tuple(v):
+    """A short list value with a literal length (an initializer list) as a sympy Tuple of its elements."""
+    if isinstance(v, Arr) and not v.opaque and isinstance(v.length, sp.Integer) and 0 < int(v.length) <= 16 and v.entry_from is None:
+        try:
+            els = [v.read((Integer(i),)) for i in range(int(v.length))]
+        except Exception:
+            return v
+        if all(isinstance(x, sp.Basic) for x in els):
+            return sp.Tuple(*els)
+    return v
+
+
+def return_cases(outs):
+    """Return outcomes as a flat list of (condition, value): a Piecewise return value (ternary, min/max written as a
+    conditional) is split into one case per piece, so `if(c) return a; else return b;` and `return c ? a : b;` look alike."""
+    res = []
+    for o in outs:
+        if o.kind != 'return':
+            continue
+        v = o.value
+        if isinstance(v, Piecewise):
+            prev = S.true
+            for val, cnd in v.args:
+                c2 = sp.And(o.cond, prev, cnd) if cnd not in (True, S.true) else sp.And(o.cond, prev)
+                res.append((c2, val))
+                if cnd not in (True, S.true):
+                    prev = sp.And(prev, sp.Not(cnd))
+        else:
+            res.append((o.cond, v))
+    return res
+
+
+def cond_atoms(c):
+    """The conjuncts of a condition (a non-conjunction is its own single conjunct)."""
+    return list(c.args) if isinstance(c, sp.And) else [c]
 
 
 def env_equal(a, b):
